@@ -16,6 +16,10 @@ const RULE11: &str = "cases = (array length N in 0..=6, element type u32|String|
 const RULE15: &str = "cases = (array length N in 0..=5, operation history on ArrayConsumer / ArrayBuilder / map_!/from_fn_! over a ledger-tracked Drop type); C15 oracle: a thread-local ledger id -> drop count; when a scenario runs to completion every created id has been dropped exactly once (by konst or by the owner it was handed to), nothing reachable through as_slice() has been dropped, elements arrive in original order with id and payload unchanged, clone() creates fresh ids; on panicking paths (closure panic inside map_!, over-push, early build) no id is dropped twice (leaks are documented there); non-trivial = history with both a front and a back take plus a clone or an early drop, or a map_! closure panicking at 0<k<N; distinct by the whole case";
 
 const MAGIC: u64 = 0x5AFE_C0DE_D00D_F00D;
+thread_local! {
+    /// --property C01: report the failures of both oracles (any of them is a memory-safety symptom)
+    static ALL: std::cell::Cell<bool> = const { std::cell::Cell::new(false) };
+}
 
 #[derive(Default)]
 struct Ledger {
@@ -26,6 +30,8 @@ struct Ledger {
 }
 thread_local! {
     static LEDGER: RefCell<Ledger> = RefCell::new(Ledger::default());
+    /// Tracked::clone panics when this counter, decremented on every clone, reaches zero (negative = off)
+    static CLONE_FUSE: std::cell::Cell<i64> = const { std::cell::Cell::new(-1) };
 }
 fn ledger_reset() {
     LEDGER.with(|l| *l.borrow_mut() = Ledger::default());
@@ -68,6 +74,16 @@ impl Tracked {
 impl Clone for Tracked {
     fn clone(&self) -> Tracked {
         self.check("clone source");
+        let fire = CLONE_FUSE.with(|f| {
+            let v = f.get();
+            if v >= 0 {
+                f.set(v - 1);
+            }
+            v == 0
+        });
+        if fire {
+            panic!("Tracked::clone fuse");
+        }
         Tracked::new(self.payload)
     }
 }
@@ -118,6 +134,9 @@ enum COp {
     Swap(usize, usize),
     /// clone the current consumer; the clone becomes current, the original is parked
     Clone,
+    /// clone while the element type's Clone panics on the k-th element: the half-built clone is dropped
+    /// during unwinding, the original must stay intact
+    ClonePanic(usize),
     /// drop the current consumer, continue with a parked one (if any)
     DropNow,
     AssertIsEmpty,
@@ -128,6 +147,7 @@ enum BOp {
     AsSlice,
     Write(usize),
     Clone,
+    ClonePanic(usize),
     Build,
     DropNow,
     LenIsFull,
@@ -211,6 +231,19 @@ fn consumer_run<const N: usize>(ops: &[COp]) -> Result<bool, String> {
                 let m2: std::collections::VecDeque<(Option<u32>, u64)> = model.iter().map(|&(_, p)| (None, p)).collect();
                 stack.push((c2, m2));
             }
+            COp::ClonePanic(k) => {
+                let will_panic = *k < model.len();
+                CLONE_FUSE.with(|f| f.set(*k as i64));
+                let r = catch(|| cons.clone());
+                CLONE_FUSE.with(|f| f.set(-1));
+                ensure!(r.is_err() == will_panic, "VAL: op {i} clone with a panicking element clone at {k}: panicked={} expected {will_panic}", r.is_err());
+                if let Ok(c2) = r {
+                    let m2: std::collections::VecDeque<(Option<u32>, u64)> = model.iter().map(|&(_, p)| (None, p)).collect();
+                    stack.push((c2, m2));
+                } else {
+                    complete = false; // the clones made before the panic may be leaked or dropped, never dropped twice
+                }
+            }
             COp::DropNow => {
                 let (c, _) = stack.pop().unwrap();
                 drop(c);
@@ -277,6 +310,19 @@ fn builder_run<const N: usize>(ops: &[BOp]) -> Result<bool, String> {
                 let b2 = b.clone();
                 let m2 = model.iter().map(|&(_, p)| (None, p)).collect();
                 stack.push((b2, m2));
+            }
+            BOp::ClonePanic(k) => {
+                let will_panic = *k < model.len();
+                CLONE_FUSE.with(|f| f.set(*k as i64));
+                let r = catch(|| b.clone());
+                CLONE_FUSE.with(|f| f.set(-1));
+                ensure!(r.is_err() == will_panic, "VAL: op {i} builder clone with a panicking element clone at {k}: panicked={} expected {will_panic}", r.is_err());
+                if let Ok(b2) = r {
+                    let m2 = model.iter().map(|&(_, p)| (None, p)).collect();
+                    stack.push((b2, m2));
+                } else {
+                    complete = false;
+                }
             }
             BOp::LenIsFull => {
                 ensure!(b.len() == model.len() && b.is_full() == (model.len() == N), "VAL: op {i} len()={} is_full()={} expected {} {}", b.len(), b.is_full(), model.len(), model.len() == N);
@@ -441,13 +487,14 @@ fn run_case(c: &Case) -> (Result<bool, String>, Vec<String>) {
 
 /// keeps only the failures that belong to the selected property
 fn verdict(c11: bool, c: &Case) -> Result<(), String> {
+    let all_props = ALL.with(|a| a.get());
     let (r, ledger) = run_case(c);
     let mut all: Vec<String> = Vec::new();
     if let Err(e) = r {
         all.push(e);
     }
     all.extend(ledger);
-    let mine: Vec<&String> = all.iter().filter(|e| if c11 { e.starts_with("VAL:") } else { e.starts_with("OWN:") }).collect();
+    let mine: Vec<&String> = all.iter().filter(|e| all_props || if c11 { e.starts_with("VAL:") } else { e.starts_with("OWN:") }).collect();
     // an unexpected failure of the other property's oracle is still reported under the property it
     // belongs to by the other check; here it is ignored
     match mine.first() {
@@ -462,7 +509,7 @@ fn eval(ctx: &mut Ctx, c11: bool, c: Case) {
             Case::Consumer { n, ops } => {
                 let f = ops.iter().any(|o| matches!(o, COp::Next { .. }));
                 let b = ops.iter().any(|o| matches!(o, COp::NextBack { .. }));
-                let x = ops.iter().any(|o| matches!(o, COp::Clone | COp::DropNow));
+                let x = ops.iter().any(|o| matches!(o, COp::Clone | COp::DropNow | COp::ClonePanic(_)));
                 if f && b {
                     ctx.label("consumer_both_ends");
                 }
@@ -499,10 +546,10 @@ fn eval(ctx: &mut Ctx, c11: bool, c: Case) {
 }
 
 fn cops() -> Vec<COp> {
-    vec![COp::Next { keep: true }, COp::Next { keep: false }, COp::NextBack { keep: true }, COp::NextBack { keep: false }, COp::AsSlice, COp::Swap(0, 1), COp::Clone, COp::DropNow, COp::AssertIsEmpty]
+    vec![COp::Next { keep: true }, COp::Next { keep: false }, COp::NextBack { keep: true }, COp::NextBack { keep: false }, COp::AsSlice, COp::Swap(0, 1), COp::Clone, COp::DropNow, COp::AssertIsEmpty, COp::ClonePanic(0), COp::ClonePanic(1)]
 }
 fn bops() -> Vec<BOp> {
-    vec![BOp::Push, BOp::AsSlice, BOp::Write(0), BOp::Clone, BOp::Build, BOp::DropNow, BOp::LenIsFull]
+    vec![BOp::Push, BOp::AsSlice, BOp::Write(0), BOp::Clone, BOp::Build, BOp::DropNow, BOp::LenIsFull, BOp::ClonePanic(1)]
 }
 
 fn explore(ctx: &mut Ctx, c11: bool, miri: bool) {
@@ -536,7 +583,7 @@ fn explore(ctx: &mut Ctx, c11: bool, miri: bool) {
             return;
         }
     }
-    ctx.exhaustive_part(&format!("ArrayConsumer<Tracked,N> N in 0..=4: all sequences of <= {depth_c} ops over 9 op kinds; ArrayBuilder<Tracked,N> N in 0..=3: all sequences of <= {depth_b} ops over 7 op kinds"));
+    ctx.exhaustive_part(&format!("ArrayConsumer<Tracked,N> N in 0..=4: all sequences of <= {depth_c} ops over 11 op kinds; ArrayBuilder<Tracked,N> N in 0..=3: all sequences of <= {depth_b} ops over 8 op kinds"));
     if miri {
         return;
     }
@@ -559,6 +606,7 @@ fn fold_case((n, is_builder, ops): &(usize, bool, Vec<(usize, usize, usize)>)) -
                 .iter()
                 .map(|&(k, a, _)| match &b[k % b.len()] {
                     BOp::Write(_) => BOp::Write(a),
+                    BOp::ClonePanic(_) => BOp::ClonePanic(a),
                     o => o.clone(),
                 })
                 .collect(),
@@ -571,6 +619,7 @@ fn fold_case((n, is_builder, ops): &(usize, bool, Vec<(usize, usize, usize)>)) -
                 .iter()
                 .map(|&(k, a, b)| match &c[k % c.len()] {
                     COp::Swap(_, _) => COp::Swap(a, b),
+                    COp::ClonePanic(_) => COp::ClonePanic(a),
                     o => o.clone(),
                 })
                 .collect(),
@@ -581,6 +630,7 @@ fn fold_case((n, is_builder, ops): &(usize, bool, Vec<(usize, usize, usize)>)) -
 fn main() {
     let args = kvh::parse_args("C11", "c11");
     let c11 = args.prop != "C15";
+    ALL.with(|a| a.set(args.prop == "C01"));
     let miri = args.mode == "miri";
     let mut ctx = Ctx::new(args.clone(), if c11 { RULE11 } else { RULE15 });
     if miri {
